@@ -11,6 +11,7 @@ Section PyvalInd.
   Hypothesis HStr : forall s, P (VStr s).
   Hypothesis HNone : P VNone.
   Hypothesis HList : forall l, Forall P l -> P (VList l).
+  Hypothesis HDict : forall l, Forall P l -> P (VDict l).
 
   Fixpoint pyval_ind2 (v : pyval) : P v :=
     match v with
@@ -20,6 +21,12 @@ Section PyvalInd.
     | VNone => HNone
     | VList l =>
         HList l ((fix go (l : list pyval) : Forall P l :=
+                    match l with
+                    | [] => Forall_nil P
+                    | x :: r => Forall_cons x (pyval_ind2 x) (go r)
+                    end) l)
+    | VDict l =>
+        HDict l ((fix go (l : list pyval) : Forall P l :=
                     match l with
                     | [] => Forall_nil P
                     | x :: r => Forall_cons x (pyval_ind2 x) (go r)
@@ -43,14 +50,23 @@ Proof.
   rewrite IH. reflexivity.
 Qed.
 
+Lemma pyval_eqb_dict xs ys :
+  pyval_eqb (VDict xs) (VDict ys) = list_eqb pyval_eqb xs ys.
+Proof.
+  simpl. revert ys. induction xs as [|x xs IH]; intros [|y ys]; simpl; try reflexivity.
+  rewrite IH. reflexivity.
+Qed.
+
 Lemma pyval_eqb_eq a : forall b, pyval_eqb a b = true <-> a = b.
 Proof.
-  induction a as [z|b0|s| |l IH] using pyval_ind2; intros [z'|b'|s'| |l'];
+  induction a as [z|b0|s| |l IH|l IH] using pyval_ind2; intros [z'|b'|s'| |l'|l'];
     try (simpl; split; intro H; (discriminate H || reflexivity)).
   - simpl. rewrite Z.eqb_eq. split; [intros ->; reflexivity|intros [= ->]; reflexivity].
   - simpl. rewrite Bool.eqb_true_iff. split; [intros ->; reflexivity|intros [= ->]; reflexivity].
   - simpl. rewrite String.eqb_eq. split; [intros ->; reflexivity|intros [= ->]; reflexivity].
   - rewrite pyval_eqb_list. rewrite (list_eqb_eq pyval_eqb l IH).
+    split; [intros ->; reflexivity|intros [= ->]; reflexivity].
+  - rewrite pyval_eqb_dict. rewrite (list_eqb_eq pyval_eqb l IH).
     split; [intros ->; reflexivity|intros [= ->]; reflexivity].
 Qed.
 
